@@ -342,11 +342,11 @@ func (r *resolver) applyDeviation(y *Module, d *Deviation) error {
 		for _, unique := range d.Add.unique {
 			target.(*List).unique = append(target.(*List).unique, unique)
 		}
-		for _, must := range d.Add.musts {
-			target.(HasMusts).addMust(must)
-		}
 	}
 	if d.Replace != nil {
+		if d.Replace.dtype != nil {
+			hasType.setType(d.Replace.dtype)
+		}
 		if d.Replace.configPtr != nil {
 			if !hasDets.IsConfigSet() {
 				return fmt.Errorf("config not set on %s", d.Ident())
@@ -393,15 +393,15 @@ func (r *resolver) applyDeviation(y *Module, d *Deviation) error {
 	}
 	if d.Delete != nil {
 		if d.Delete.units != "" {
-			if hasType.Units() == d.Delete.units {
+			if hasType.Units() != d.Delete.units {
 				return fmt.Errorf("cannot delete units '%s' != '%s' on %s",
 					d.Delete.units, hasType.Units(), d.Ident())
 			}
 			hasType.setUnits("")
 		}
 		if d.Delete.HasDefault() {
-			if hasType.DefaultValue() == d.Delete.DefaultValue() {
-				return fmt.Errorf("cannot delete units '%s' != '%s' on %s",
+			if hasType.DefaultValue() != d.Delete.DefaultValue() {
+				return fmt.Errorf("cannot delete default '%s' != '%s' on %s",
 					d.Delete.Default(), hasType.DefaultValue(),
 					d.Ident())
 			}
